@@ -27,7 +27,55 @@ pub struct ConnIo {
 /// Shell-owned map from `conn_id` to its [`ConnIo`]. Lives entirely inside the
 /// single event-loop task and is only ever accessed serially, so a plain
 /// `HashMap` (not a concurrent map) is both correct and cheapest.
+#[cfg(not(feature = "verif-model"))]
 pub type ConnIoMap = HashMap<ConnectionId, ConnIo>;
+
+// verif-model (bounded-model-checking build only, OFF by default): the same map
+// surface over a plain vector, because std's hashbrown table does not get through
+// the model checker. Sockets cannot exist in that build, so the map stays empty.
+#[cfg(feature = "verif-model")]
+pub type ConnIoMap = verif_model::VecMap<ConnectionId, ConnIo>;
+
+#[cfg(feature = "verif-model")]
+pub mod verif_model {
+    /// Association list offering the `HashMap` methods the shell uses on `ConnIoMap`.
+    pub struct VecMap<K, V> {
+        entries: Vec<(K, V)>,
+    }
+
+    impl<K, V> Default for VecMap<K, V> {
+        fn default() -> Self {
+            Self { entries: Vec::new() }
+        }
+    }
+
+    impl<K: PartialEq, V> VecMap<K, V> {
+        pub fn new() -> Self {
+            Self::default()
+        }
+
+        pub fn get(&self, k: &K) -> Option<&V> {
+            self.entries.iter().find(|(key, _)| key == k).map(|(_, v)| v)
+        }
+
+        pub fn get_mut(&mut self, k: &K) -> Option<&mut V> {
+            self.entries.iter_mut().find(|(key, _)| key == k).map(|(_, v)| v)
+        }
+
+        pub fn insert(&mut self, k: K, v: V) -> Option<V> {
+            if let Some(slot) = self.entries.iter_mut().find(|(key, _)| *key == k) {
+                return Some(std::mem::replace(&mut slot.1, v));
+            }
+            self.entries.push((k, v));
+            None
+        }
+
+        pub fn remove(&mut self, k: &K) -> Option<V> {
+            let pos = self.entries.iter().position(|(key, _)| key == k)?;
+            Some(self.entries.swap_remove(pos).1)
+        }
+    }
+}
 
 pub struct UplinkPacket {
     pub conn_id: ConnectionId,
